@@ -125,6 +125,24 @@ Theorem C18_universe_test_sound :
 Proof. exact universe_closedb_sound. Qed.
 Print Assumptions C18_universe_test_sound.
 
+(* the simplest class — all variables finitely typed: the type-reduced monomials are an explicit
+   universe with prod |T x| elements, and that number is enough fuel for EVERY goal in it.
+   PARTIAL: closedness of this universe is the executable hypothesis (decided in the kernel for
+   Polar's own flat programs by ./check C18), not yet a theorem for all all-finite programs. *)
+Theorem C18_finite_class_terminates_partial :
+  forall cmom fp T M,
+    universe_closedb (polar_step cmom fp T) (reduced_universe T) = true ->
+    In (mnorm M) (reduced_universe T) ->
+    exists sys, recurrences_fp cmom (prod_sizes T) fp T M = Some sys /\
+                closed_sys sys /\ rows_ok (polar_step cmom fp T) sys /\ In (mnorm M) (map fst sys).
+Proof. exact finite_class_terminates. Qed.
+Print Assumptions C18_finite_class_terminates_partial.
+
+Theorem C18_reduced_universe_size :
+  forall T, List.length (reduced_universe T) = prod_sizes T.
+Proof. exact reduced_universe_length. Qed.
+Print Assumptions C18_reduced_universe_size.
+
 (* a system returned once bounds the fuel for every monomial in it *)
 Theorem C18_returned_system_bounds_fuel :
   forall (step : mono -> option poly) (fuel0 : nat) (M0 : mono) (sys : list (mono * poly)),
@@ -220,3 +238,18 @@ Example C18_worklist_nonvacuous :
   end = true /\
   recurrences_fp cm0 1 ex_fp ex_T [("y", 2%nat)] = None.
 Proof. vm_compute. split; reflexivity. Qed.
+(* all variables finite:  x = Bernoulli(1/2); z = 1 - z | x == 1 : z  — the universe {1, x, z, x*z}
+   is closed, so 4 = |T x| * |T z| steps suffice for every goal over x, z of any degree below the
+   type sizes *)
+Definition ex_fin : flatprog :=
+  {| fp_init := [ {| ga_var := "x"; ga_cond := CTrue; ga_default := "x"; ga_rhs := RDet (EConst (mkq 0 1)) |};
+                  {| ga_var := "z"; ga_cond := CTrue; ga_default := "z"; ga_rhs := RDet (EConst (mkq 0 1)) |} ];
+     fp_body := [ {| ga_var := "x"; ga_cond := CTrue; ga_default := "x"; ga_rhs := RDraw (DBern (EConst (mkq 1 2))) |};
+                  {| ga_var := "z"; ga_cond := CAtom (EVar "x") Ceq (EConst (mkq 1 1)); ga_default := "z";
+                     ga_rhs := RDet (ESub (EConst (mkq 1 1)) (EVar "z")) |} ] |}.
+Definition ex_fin_T : tenv := [("x", [mkq 0 1; mkq 1 1]); ("z", [mkq 0 1; mkq 1 1])].
+Example C18_finite_class_nonvacuous :
+  universe_closedb (polar_step cm0 ex_fin ex_fin_T) (reduced_universe ex_fin_T) = true /\
+  prod_sizes ex_fin_T = 4%nat /\
+  mono_mem (mnorm [("z", 1%nat); ("x", 1%nat)]) (reduced_universe ex_fin_T) = true.
+Proof. vm_compute. repeat split; reflexivity. Qed.
